@@ -127,6 +127,18 @@ func (a *HMACAuth) Verify(r *http.Request, requestPath string, body []byte) erro
 	return ErrUnauthorized
 }
 
+// InheritReplayState makes a rebuilt authenticator (configuration reload)
+// continue the replay protection of its predecessor: nonces honoured before the
+// reload stay rejected after it. When the tolerance grew, remembered nonces are
+// kept correspondingly longer.
+func (a *HMACAuth) InheritReplayState(prev *HMACAuth) {
+	if a == nil || prev == nil || prev.nonce == nil || prev == a {
+		return
+	}
+	prev.nonce.extend(a.Tolerance - prev.Tolerance)
+	a.nonce = prev.nonce
+}
+
 func cloneByteSlices(in [][]byte) [][]byte {
 	out := make([][]byte, 0, len(in))
 	for _, b := range in {
@@ -163,6 +175,18 @@ func (c *nonceCache) setNow(now func() time.Time) {
 	c.mu.Lock()
 	c.now = now
 	c.mu.Unlock()
+}
+
+// extend postpones the expiry of every remembered nonce by d (no-op for d <= 0).
+func (c *nonceCache) extend(d time.Duration) {
+	if d <= 0 {
+		return
+	}
+	c.mu.Lock()
+	defer c.mu.Unlock()
+	for k, exp := range c.m {
+		c.m[k] = exp.Add(d)
+	}
 }
 
 func (c *nonceCache) seenOnce(nonce string, expiresAt time.Time) bool {
